@@ -84,6 +84,10 @@ func (xp xpathImpl) resolveOperator(oper *xpath.Operator, ident string, s *Selec
 	if err != nil {
 		return false, err
 	}
+	if a == nil {
+		// nothing compares to a leaf that has no value
+		return false, nil
+	}
 	switch oper.Oper {
 	case "=":
 		return val.Equal(a, b), nil
